@@ -11,8 +11,16 @@ package main
 //         C17:retry-same-host
 
 import (
+	"context"
 	"fmt"
 	"strings"
+	"time"
+
+	"mosn.io/mosn/pkg/protocol"
+	"mosn.io/mosn/pkg/proxy"
+	"mosn.io/mosn/pkg/router"
+	"mosn.io/mosn/pkg/types"
+	"mosn.io/pkg/variable"
 
 	. "vh/vhlib"
 )
@@ -276,6 +284,11 @@ func c17(args []string) int {
 	}
 	tsh.Close()
 
+	// ---------------- (a') the whole space of source states, evaluated by the real parseProxyTimeout (hook VerifParseProxyTimeout)
+	if rc := c17TimeoutSpace(run); rc != 0 {
+		return rc
+	}
+
 	// ---------------- (b) retry policy
 	var specs []*Spec
 	n := run.N(450, 8000)
@@ -339,4 +352,111 @@ func c17(args []string) int {
 		run.Sum.Distribution[fmt.Sprintf("attempts:%d", countNew(j.res))]++
 	}
 	return finishProxy(run, jobs, c17Retry, func(sp *Spec) bool { return plainSpec(sp) })
+}
+
+// every state {absent, present = 0, present > 0 (two values, below/above the others), present but unparsable} of the request
+// headers and of the protocol-supplied variables, x {not configured, configured} of the route, for the global AND the per-try
+// value: the complete space (2*2*5*5*5*5 = 2500 cases) through the real parseProxyTimeout on a real route of the real router
+func c17TimeoutSpace(run *Run) int {
+	initEnv()
+	type src struct {
+		present bool
+		text    string
+		val     int  // parsed value when parsable
+		ok      bool // parsable
+	}
+	states := func(lo, hi int) []src {
+		return []src{{}, {true, "0", 0, true}, {true, fmt.Sprint(lo), lo, true}, {true, fmt.Sprint(hi), hi, true}, {true, "1.5s", 0, false}}
+	}
+	sh := run.NewShard("From Coq Require Import List ZArith Bool.\nFrom MV Require Import Model.ProxyTimeout Model.Proxy Gen.ProxyTokens.\nImport ListNotations.\nOpen Scope Z_scope.\n",
+		"tcase", "timeout_mismatches proxy_default_global_ms")
+	n := 0
+	for _, rg := range []int{0, 200} {
+		for _, rt := range []int{0, 90} {
+			// a real route with these values
+			id := 600000 + n
+			sp := &Spec{Route: "forward", NHosts: 1, RouteGlobalMs: rg, RouteTryMs: rt}
+			p := prepareHistory(id, sp)
+			if p.err != nil {
+				fmt.Println("harness error:", p.err)
+				return 2
+			}
+			rw := router.GetRoutersMangerInstance().GetRouterWrapperByName(fmt.Sprintf("r%d", id))
+			for _, hg := range states(150, 400) {
+				for _, ht := range states(60, 300) {
+					for _, vg := range states(120, 500) {
+						for _, vt := range states(40, 450) {
+							n++
+							hm := map[string]string{"service": "svc"}
+							if hg.present {
+								hm[types.HeaderGlobalTimeout] = hg.text
+							}
+							if ht.present {
+								hm[types.HeaderTryTimeout] = ht.text
+							}
+							hdr := protocol.CommonHeader(hm)
+							ctx := variable.NewVariableContext(context.Background())
+							if vg.present {
+								_ = variable.SetString(ctx, types.VarProxyGlobalTimeout, vg.text)
+							}
+							if vt.present {
+								_ = variable.SetString(ctx, types.VarProxyTryTimeout, vt.text)
+							}
+							route := rw.GetRouters().MatchRoute(ctx, hdr)
+							if route == nil {
+								fmt.Println("harness error: route not matched")
+								return 2
+							}
+							g, t := proxy.VerifParseProxyTimeout(ctx, route, hdr)
+							gms, tms := int(g/time.Millisecond), int(t/time.Millisecond)
+							// the property text: protocol-supplied if present, else the request's header, else the route's, else the
+							// default; a present value that does not parse is not a value; 0 means "not set" at the end; per-try
+							// disabled when >= global
+							pick := func(v, h src, r int) int {
+								if v.present && v.ok {
+									return v.val
+								}
+								if h.present && h.ok {
+									return h.val
+								}
+								return r
+							}
+							wantG := pick(vg, hg, rg)
+							if wantG == 0 {
+								wantG = int(types.GlobalTimeout / time.Millisecond)
+							}
+							wantT := pick(vt, ht, rt)
+							if wantT >= wantG {
+								wantT = 0
+							}
+							key := fmt.Sprintf("space:%d:%d:%s:%s:%s:%s", rg, rt, hg.text, ht.text, vg.text, vt.text)
+							run.Count(key, hg.present || ht.present || vg.present || vt.present, "timeout-space")
+							if gms != wantG || tms != wantT {
+								run.Fail("C17:timeout-precedence", fmt.Sprintf("parseProxyTimeout gives global=%d ms per-try=%d ms; the configured precedence gives global=%d per-try=%d", gms, tms, wantG, wantT),
+									map[string]interface{}{"route_global_ms": rg, "route_try_ms": rt, "header_global": hg.text, "header_try": ht.text, "variable_global": vg.text, "variable_try": vt.text,
+										"header_global_present": hg.present, "header_try_present": ht.present, "variable_global_present": vg.present, "variable_try_present": vt.present})
+							}
+							opt := func(x src) string {
+								if x.present && x.ok {
+									return "(Some " + CoqZ(int64(x.val)) + ")"
+								}
+								return "None"
+							}
+							sh.Add(fmt.Sprintf("({| t_route_g := %s; t_route_t := %s; t_hdr_g := %s; t_hdr_t := %s; t_var_g := %s; t_var_t := %s |}, %s, %s)",
+								CoqZ(int64(rg)), CoqZ(int64(rt)), opt(hg), opt(ht), opt(vg), opt(vt), CoqZ(int64(gms)), CoqZ(int64(tms))), key)
+							if sh.Len() >= 400 {
+								sh.Close()
+								sh = run.NewShard("From Coq Require Import List ZArith Bool.\nFrom MV Require Import Model.ProxyTimeout Model.Proxy Gen.ProxyTokens.\nImport ListNotations.\nOpen Scope Z_scope.\n",
+									"tcase", "timeout_mismatches proxy_default_global_ms")
+							}
+						}
+					}
+				}
+			}
+			histReg.Delete(id)
+		}
+	}
+	sh.Close()
+	run.Sum.Extra["timeout_source_space"] = fmt.Sprintf("enumerated completely: %d cases (route x header x variable states for global and per-try)", n)
+	return 0
 }
